@@ -26,7 +26,7 @@ fn plain_did_ok(s: &str) -> Result<(), String> {
 
 fn main() {
   std::panic::set_hook(Box::new(|_| {}));
-  w("did_plain_did_with_url_parts", || { for s in ["did:example:123#frag", "did:example:123/path?q=1", "did:example:123?q=1", "did:example:123/p"] { plain_did_ok(s)?; } Ok(()) });
+  w("did_plain_did_with_url_parts", || { for s in ["did:example:123#frag", "did:example:123/path?q=1", "did:example:123?q=1", "did:example:123/p", "did:example:123#", "did:example:123?", "did:example:123/"] { plain_did_ok(s)?; } Ok(()) });
   w("did_plain_did_with_whitespace", || { for s in [" did:example:123", "did:example:123 ", "did:example:%41/x", "did:example:%41 x"] { plain_did_ok(s)?; } Ok(()) });
   w("did_trailing_percent_triple", || { for s in ["did:example:%41", "did:example:%+f", "did:example:abc%7e"] { plain_did_ok(s)?; } Ok(()) });
   w("did_url_trailing_percent_triple", || { for s in ["did:example:1/p%41", "did:example:1?q=%41", "did:example:1#f%41"] { let _ = DIDUrl::parse(s); } Ok(()) });
